@@ -388,7 +388,15 @@ def generate(root, unit):
     fparts = [head]
     for f in unit['functions']:
         fparts.append(f['sig'] + ';\n')
+    errors = []
     for f in unit['functions']:
-        t, r = slice_function(root, f)
+        try:
+            t, r = slice_function(root, f)
+        except SliceError as e:
+            # one function that left the sliceable subset does not take the unit down: it stays a prototype without body (every job that needs it
+            # becomes inconclusive through the "calls a function outside the slice" rule) and the other functions are still checked
+            errors.append(str(e)); recs.append({'name': f['name'], 'file': f['file'], 'line': 0, 'rules': {}, 'error': str(e)})
+            fparts.append('/* NOT SLICED: %s */\n' % str(e).replace('*/', '* /')); continue
         fparts.append(t); recs.append(r)
+    if errors and len(errors) == len(unit['functions']): raise SliceError('; '.join(errors)[:600])
     return ''.join(tparts), ''.join(fparts), recs
